@@ -455,6 +455,61 @@ def _walk_refs(roots):
             yield from _walk_refs([o.values])
 
 
+def policy_year_cases(seed):
+    """The vals_dict accumulation of _accident_quarter_to_policy_year_slice, one model case per produced
+    cell: the contributing accident-quarter cells are re-derived with the module's own helpers (which
+    policy year receives a share of which quarter), the accumulated result is compared with
+    Model/Heap.v policy_year_cell (structure, freshness; share values are irrelevant to both)."""
+    from bermuda import CumulativeCell, Triangle
+
+    B = importlib.import_module("bermuda.utils.basis")
+    r = random.Random(seed)
+    g = KGen(r)
+    cells = []
+    nq = r.randint(1, 5)
+    evs = [D(2021, 12, 31), D(2022, 12, 31)][: r.randint(1, 2)]
+    fields = r.sample(["earned_premium", "paid_loss", "reported_loss"], r.randint(1, 3))
+    for q in range(nq):
+        ps = D(2020 + q // 4, 1 + 3 * (q % 4), 1)
+        pe = D(2020 + q // 4, 3 + 3 * (q % 4), [31, 30, 30, 31][q % 4])
+        for e in evs:
+            vals = cells[-1].values if cells and r.random() < 0.2 else {f: g.value(p_none=0) for f in fields}
+            cells.append(CumulativeCell(period_start=ps, period_end=pe, evaluation_date=e, values=vals))
+    tri = Triangle(cells)
+    cont = r.random() < 0.5
+    res, exc, changes = M.monitored(B._accident_quarter_to_policy_year_slice, (tri,), {"continuous_issuance": cont})
+    out = {"changed": changes, "outcome": "raised:" + type(exc).__name__ if exc is not None else "returned", "cases": []}
+    if exc is not None:
+        return out
+    # which policy year gets a share of which accident quarter (same helper calls as the function)
+    pys = B.policy_years_covered(tri, D(2020, 1, 1))
+    share = {}
+    for py in pys:
+        aq = B.monthly_ep_to_quarterly_ep(
+            B._policy_earned_premium_share_by_month(risk_start_date=py[0], risk_end_date=py[1], policy_length_months=12,
+                                                    continuous_issuance=cont), tri)
+        for period in aq:
+            share.setdefault(period, set()).add(py)
+    for oc in res.cells:
+        py = (oc.period_start, oc.period_end)
+        aq_cells = list(tri[:, oc.evaluation_date, :].cells)
+        shares = [py in share.get(c.period, ()) for c in aq_cells]
+        H = Heap(lambda c: 7)
+        try:
+            for c in aq_cells:
+                H.add(c)
+            heap_term = H.term()
+            obs = f"(ObsRet (GVal {sig(oc, H, False, lambda c: 7)}))"
+        except (NotRepresentable, KeyError):
+            continue
+        call = (f"KPolicyYearCell 7 {lst([H.val(c) for c in aq_cells])} "
+                f"{lst(['(Some 1)' if s_ else 'None' for s_ in shares])}")
+        out["cases"].append({"coq": f"agrees cfg_sum false\n  {heap_term}\n  ({call})\n  {obs}",
+                             "mut": f"mutant_writes cfg_sum\n  {heap_term}\n  ({call})", "n_objs": len(H.objs),
+                             "outcome": "returned"})
+    return out
+
+
 def policy_year_alias_check(seed):
     """accident_quarter_to_policy_year (vals_dict accumulation) at function level: arguments unchanged and
     no result array shares memory with an argument array (model: every entry fresh)."""
@@ -580,12 +635,14 @@ def run(ctx):
         "(monitored by harness/monitor.py and screened by translate/t_inplace.py only)",
         "NumPy view semantics (slices, .T, frombuffer), dtype casting and user callables are not modelled; the "
         "harness detects view aliasing of results with np.shares_memory",
-        "the policy-year vals_dict accumulation is tied at function level (fingerprint + shares_memory), not "
-        "case-by-case against the model",
+        "the policy-year vals_dict accumulation is tied per produced cell (contributing quarters re-derived with the "
+        "module's own share helpers) and at function level (fingerprint + shares_memory)",
     ]
     # 1. proofs
     ctx.audit_tree(["Model/Heap.v", "Proofs/HeapFrame.v", "Proofs/HeapKernels.v", "Props/C03.v"])
     ctx.prove_static("Props/C03.v", timeout=600)
+    if not ctx.quick:
+        coqchk(ctx)
     # 2. syntactic screen
     new_sites = []
     try:
@@ -635,6 +692,20 @@ def run(ctx):
             found_input = True
             ctx.violation("impl-violation", f"accident_quarter_to_policy_year: {changes or bad}",
                           {"mode": "policy_year", "seed": pseed, "changes": repr(changes), "aliased_fields": bad}, found_input=True)
+    for _ in range(40 if ctx.quick else 400):
+        pseed = rng.randrange(2**31)
+        with warnings.catch_warnings():
+            warnings.simplefilter("ignore")
+            py = policy_year_cases(pseed)
+        ctx.hist("kernel:policy_year_cell:" + py["outcome"].split(":")[0])
+        if py["changed"] and "policy_year_cell" not in flagged:
+            found_input = True
+            flagged.add("policy_year_cell")
+            ctx.violation("impl-violation", f"_accident_quarter_to_policy_year_slice changed its argument: {py['changed'][0][1]}",
+                          {"mode": "policy_year_cell", "seed": pseed, "change": py["changed"][0][1]}, found_input=True)
+        for k_, case in enumerate(py["cases"]):
+            done.append(("policy_year_cell", pseed, case))
+            ctx.nontriv(("kernel", "policy_year_cell", pseed, k_))
     ctx.count(evaluations=len(done) + (60 if ctx.quick else 600), traces=len(done))
     for f in ctx.build.glob("cases_*.v*"):
         f.unlink()
@@ -716,6 +787,18 @@ def run(ctx):
         ctx.sample({"monitor_case": results[-1][0], "trace": results[-1][1]["trace"]})
 
 
+
+def coqchk(ctx):
+    """thorough tier: re-check the compiled property file and everything it depends on with coqchk"""
+    from harness.common import COQ, sh
+
+    cmd = ["coqchk", "-silent", "-o", "-Q", str(COQ), "Bermuda", "Bermuda.Props.C03"]
+    ctx.checker_cmds.append(" ".join(cmd))
+    rc, out = sh(cmd, timeout=1800, cwd=COQ)
+    ok = rc == 0 and "Axioms: <none>" in " ".join(out.split())
+    ctx.obligation("coqchk Bermuda.Props.C03 (no axioms, no assumed positivity/guardedness)", ok, out[-800:])
+
+
 def replay(ctx, data):
     from pathlib import Path
 
@@ -733,6 +816,10 @@ def replay(ctx, data):
         out = run_kernel_case(data["kernel"], data["seed"])
         print(data["kernel"], out.get("outcome"), "changed:", out["changed"])
         return 1 if out["changed"] else 0
+    if mode == "policy_year_cell":
+        py = policy_year_cases(data["seed"])
+        print(py["outcome"], py["changed"])
+        return 1 if py["changed"] else 0
     if mode == "probe_defaultdict":
         class _C:
             def violation(self, *a, **k):
